@@ -8,6 +8,7 @@ import YaraModel.Lemmas.ReEmit
 import YaraModel.Lemmas.ReAtomPos
 import YaraModel.Lemmas.ReAtomEntry
 import YaraModel.Lemmas.ReScan
+import YaraModel.Lemmas.ReSplit
 namespace YaraModel.C02
 open YaraModel.Re
 
@@ -289,5 +290,26 @@ open YaraModel.ReScan in
     backward code `43 ?? 41`) is reported at offsets 1 and 4: the match list is [(1,3), (4,3)] -/
 example : scanHex (.cat (.lit 0x41) (.cat .any (.lit 0x43))) #[0x78, 0x41, 0x62, 0x43, 0x41, 0x2d, 0x43] {} 100000
     [⟨0, some 5, 1⟩, ⟨0, some 5, 4⟩] = [(1, 3), (4, 3)] := by decide
+
+open YaraModel.ReSplit in
+/-- `chain_split_sem`: splitting a string at its chaining points preserves its language.  `chainSplit r` is the model of
+    `yr_re_ast_split_at_chaining_point` applied until no chaining point is left: a chaining point is a top-level child of the
+    root concatenation that is a non-greedy jump `[n-m]` with n > 200 or m > 200 (YR_STRING_CHAINING_THRESHOLD) — whatever its
+    WIDTH m - n, fixed jumps `[n]` included — and that has a previous and a next sibling in the remaining concatenation.
+    For ALL patterns, buffers and positions (byte mode, jumps match any byte): `r` matches [p, q) iff the head piece and the
+    further pieces match one after the other with every gap s - e inside [gap_min, gap_max] of its jump — the re-joining
+    rule `ending_offset + chain_gap_min ≤ match_offset ≤ ending_offset + chain_gap_max` of scan.c (`split_sem` for every
+    chaining point of the decision function).  The pieces and gaps of the model are compared with the chain the real
+    compiler builds (one YR_STRING per piece, chained_to, chain_gap_min / max) for every generated string. -/
+theorem chain_split_sem (fl : Flags) (hd : fl.dotall = true) (hw : fl.wide = false) (buf : Bytes) (r : Re) (p q : Nat) :
+    Re.Matches fl buf r p q ↔ ChainM fl buf (chainSplit r).1 (chainSplit r).2 p q :=
+  chainSplit_sem hd hw r p q
+
+open YaraModel.ReSplit in
+/-- instances: `01 02 [1017] 03 04` and `01 02 [2000-2199] 03` are chains of two pieces (fixed and narrow large jumps),
+    `01 02 [200] 03 04` is one piece -/
+example : (chainSplit (.cat (.lit 1) (.cat (.lit 2) (.cat (.rangeAny 1017 1017 false) (.cat (.lit 3) (.lit 4)))))).2.map (fun gp => (gp.1.gmin, gp.1.gmax)) = [(1017, 1017)] ∧
+    (chainSplit (.cat (.lit 1) (.cat (.lit 2) (.cat (.rangeAny 2000 2199 false) (.lit 3))))).2.map (fun gp => (gp.1.gmin, gp.1.gmax)) = [(2000, 2199)] ∧
+    (chainSplit (.cat (.lit 1) (.cat (.lit 2) (.cat (.rangeAny 200 200 false) (.cat (.lit 3) (.lit 4)))))).2 = [] := by decide
 
 end YaraModel.C02
